@@ -374,6 +374,36 @@ func runC11(ctx *Ctx) error {
 			ctx.Res.Violate("values:"+cls, "the constants of the generated enum types are not the distinct values of the enum schemas: "+c11Diff(have, want), replay)
 		}
 	}
+	// an enum on a parameter that the path item declares for all its operations (query and path): its values are constants
+	// of a type like those of an operation-level parameter
+	for _, loc := range []string{"path", "query"} {
+		prm := J{"name": "mode", "in": loc, "schema": J{"type": "string", "enum": []interface{}{"fast", "slow"}}}
+		path := "/a"
+		if loc == "path" {
+			prm["required"] = true
+			path = "/a/{mode}"
+		}
+		doc := wDoc(J{path: J{"parameters": []interface{}{prm}, "get": wOp("getA", J{})}}, nil)
+		var cfg codegen.Configuration
+		cfg.PackageName = "api"
+		cfg.Generate.Models, cfg.Generate.ChiServer = true, true
+		ctx.Res.Eval(J{"enums": "path-item parameter", "in": loc}, true)
+		if spec, err := loadDoc(doc); err == nil {
+			if src, err := generate(spec, cfg); err == nil {
+				if got, err := c11Inspect(src); err == nil {
+					all := map[string]bool{}
+					for _, vs := range got.Types {
+						for _, v := range vs {
+							all[v] = true
+						}
+					}
+					if !(all["s:fast"] && all["s:slow"]) {
+						ctx.Res.Violate("values:path-item-parameter:"+loc, fmt.Sprintf("an enum [fast, slow] on a %s parameter declared by the path item has no constants (typed constants of the file: %v)", loc, SortedKeys(all)), J{"doc": doc})
+					}
+				}
+			}
+		}
+	}
 	// two enum schemas whose names normalise to one Go type name, with different value lists: refusing the document is
 	// fine, generating it with the constants of only one of them is not
 	{
